@@ -283,6 +283,9 @@ class Interp:
                     if modname in self.loading or modname == self.package:
                         # circular import during loading: bind lazily
                         env.vars[al.asname or al.name] = _Lazy(self, modname, al.name)
+                    elif not modname.startswith(self.package):
+                        # a name of an external library outside its model: usable as a value, Unsupported when used
+                        env.vars[al.asname or al.name] = _Unmodelled(f"{modname}.{al.name}")
                     else:
                         raise Unsupported(f"cannot import {al.name} from {modname}")
 
@@ -1129,7 +1132,21 @@ class Interp:
         return r
 
     def e_SetComp(self, node, env):
-        return set(self._comprehension(node, env, "list"))
+        r = self._comprehension(node, env, "list")
+        if isinstance(r, SSeq) and not T.is_const(r.n):
+            # the distinct values of a symbolic number of items: some m <= n of them, each one of the items
+            c = cur()
+            m = T.fresh("n_distinct", T.INT)
+            pick = T.uf(f"pick!{m.uid}", [T.INT], T.INT)
+            c.axiom(T.and_(T.le(0, m), T.le(m, r.n), T.implies(T.lt(0, r.n), T.le(1, m))))
+
+            def elem(j, r=r, pick=pick):
+                j = T.lift(j, T.INT)
+                cur().axiom(T.and_(T.le(0, pick(j)), T.lt(pick(j), r.n)))
+                return r.elem(pick(j))
+
+            return SSeq(m, elem, f"set of {r.desc}")
+        return set(r)
 
     def e_GeneratorExp(self, node, env):
         return self._comprehension(node, env, "gen")
@@ -1995,6 +2012,16 @@ class Interp:
 
         @reg("max")
         def _max(it, a, k):
+            if len(a) == 1 and isinstance(a[0], SSeq) and not T.is_const(a[0].n) and "key" in k:
+                # the first item of maximal key: a skolem index with its defining facts
+                seq, key = a[0], k["key"]
+                c = cur()
+                c.oblige("safe", "max() of a non-empty sequence", T.lt(0, seq.n))
+                w = T.fresh("argmax", T.INT)
+                kv = lambda i: T.to_real(T.lift(A.at(it.call(key, [seq.elem(i)], {}), 0)))
+                c.axiom(T.and_(T.le(0, w), T.lt(w, seq.n)))
+                c.assume_forall(seq.n, lambda i: T.and_(T.le(kv(i), kv(w)), T.implies(T.lt(i, w), T.lt(kv(i), kv(w)))))
+                return seq.elem(w)
             if all(isinstance(x, (int, float)) for x in a):
                 return max(a)
             if len(a) == 2 and all(A.is_num(x) for x in a):
@@ -2195,6 +2222,19 @@ class _SymIter:
 
     def pyvc_iter_obj(self, interp):
         return self
+
+
+class _Unmodelled:
+    """a function / class of an external library that the model does not cover"""
+
+    def __init__(self, what):
+        self.what = what
+
+    def pyvc_call(self, interp, args, kwargs):
+        raise Unsupported(f"{self.what} is not part of the model of {self.what.split('.')[0]}")
+
+    def pyvc_getattr(self, interp, name):
+        raise Unsupported(f"{self.what}.{name} is not part of the model of {self.what.split('.')[0]}")
 
 
 class _SymbolicIterationNeeded(Exception):
